@@ -4,6 +4,8 @@ import PromProofs.HistLayout
 import PromModel.Suites.HintSuite
 import PromProofs.HistHint
 import PromProofs.MergeHintGlue
+import PromProofs.HistWitness
+import PromProofs.HistValid
 /-
   C12 — Counter-reset hints returned by queries are sound (layout level).
   Model: C11's chunk appender (`Prom.Hist.appendHist`), `hintOf` (= `counterResetHint`), `Chunk.read`,
@@ -42,10 +44,10 @@ example :
     let c := (Chunk.empty false).appendRaw 10 h1
     c.num ≠ 0 := by decide
 
-/-- Full statement for a whole chunk (kept visible; the step theorem above is its inductive step for
-    the newest pair, what is missing is that later forward recodings of the chunk keep the relation
-    for older pairs — `insert_preserves_buckets` at index level).  The judge evaluates exactly
-    `hintsSound` on every real chunk, head and query result on every run. -/
+/-- Statement for a whole chunk as originally written: over ALL `Hist` values.  Proved for valid histograms of one
+    flavour (`hint_sound_chunk`, `hint_sound_chunk_float`); false for ill-formed ones
+    (`hint_sound_chunk_full_witness`).  The judge evaluates exactly `hintsSound` on every real chunk, head and
+    query result on every run. -/
 def hint_sound_chunk_full : Prop :=
   ∀ (samples : List (Int × Hist)) (c : Chunk),
     samples.foldlM (fun (st : Chunk) (p : Int × Hist) => (appendHist none st p.1 p.2).map (·.chunk)) (Chunk.empty false) = .ok c →
@@ -102,7 +104,10 @@ theorem merge_consecutive_iff_unchanged (c c' : Merge.Chain) (cur : Merge.It) (s
     c'.consecutive = !changed ∧ c'.curr = some cur :=
   Merge.finishLoop_consecutive c c' cur s h dead changed hr
 
-/-- Full statements (kept visible, not proved): soundness of the merged stream and of query results.
+/-- Statements as originally written (kept visible): soundness of the merged stream and of query results, without
+    validity hypotheses.  Proved with them: `hint_sound_merge` (sources with strictly increasing timestamps),
+    `hint_sound_query` (valid histograms), `hint_sound_query_merged` (both composed); refuted without:
+    `hint_sound_merge_full_witness`, `hint_sound_query_full_witness`.
     `unsoundAt` is the judge's predicate; suite `hint` evaluates it on the real `ChainedSeriesMerge` output
     and on the real querier's output (head, OOO head, blocks, overlapping blocks) on every run. -/
 def hint_sound_merge_full : Prop :=
@@ -132,6 +137,61 @@ def hint_sound_query_full : Prop :=
     (samples.zip cuts).foldlM (fun (st : Series) (p : (Int × Hist) × Bool) =>
       (st.append p.2 p.1.1 p.1.2).map (·.1)) Series.empty = .ok s →
     hintsSound s.read = true
+
+/-- **hint_sound_query, composed with C19's chain model.**  Several series (head, out-of-order head, blocks, …),
+    each built from valid histograms with strictly increasing timestamps through the transcribed head appender,
+    read in full and merged by the transcribed `chainSampleIterator` (possibly overlapping in time): the merged
+    stream a query returns carries sound hints — inside one chunk by `hint_sound_chunk`, at chunk boundaries the
+    chunk iterator says Unknown, and wherever the delivering iterator changed the chain iterator resets the hint
+    to Unknown. -/
+theorem hint_sound_query_merged (runs : List (List ((Int × Hist) × Bool) × Series)) (out : List (Int × Hist))
+    (hrun : ∀ p ∈ runs, runSeries p.1 Series.empty = .ok p.2)
+    (hwf : ∀ p ∈ runs, ∀ q ∈ p.1, WFs q.1.2)
+    (hts : ∀ p ∈ runs, (p.1.map (·.1.1)).Pairwise (· < ·))
+    (h : Prom.HintSuite.mergeRead (runs.map (·.2.read)) = some out) : hintsSound out = true := by
+  refine hint_sound_merge _ out ?_ ?_ h
+  · intro rd hrd
+    simp only [List.mem_map] at hrd
+    obtain ⟨p, hp, rfl⟩ := hrd
+    obtain ⟨gs, inv, _⟩ := runSeries_inv p.1 Series.empty [] trivial (hwf p hp) p.2 (hrun p hp)
+    have := SInv.hints_sound _ gs inv none 0
+    have e : p.2.read = List.flatMap Chunk.read (p.2.cur.toList ++ p.2.done).reverse := rfl
+    rw [hintsSound, e, this]; rfl
+  · intro rd hrd
+    simp only [List.mem_map] at hrd
+    obtain ⟨p, hp, rfl⟩ := hrd
+    obtain ⟨gs, inv, hf⟩ := runSeries_inv p.1 Series.empty [] trivial (hwf p hp) p.2 (hrun p hp)
+    have hr := SInv.read_rel _ gs inv
+    rw [hf] at hr
+    have e : p.2.read = List.flatMap Chunk.read (p.2.cur.toList ++ p.2.done).reverse := rfl
+    have hm : p.2.read.map (·.1) = (p.1.map (·.1)).map (·.1) := by
+      rw [e]; simpa using hr.map_fst
+    rw [hm, List.map_map]
+    exact hts p hp
+
+/-! ### the literal `_full` statements quantify over ill-formed inputs too and are false there -/
+
+/-- `hint_sound_chunk_full` as written (ALL `Hist` values) is false: spans `[⟨0,1⟩,⟨-1,1⟩]` enumerate bucket 0 twice;
+    the appender compares position by position, the judge looks buckets up by index.  (`Validate` rejects such
+    spans; `WF.of_valid`.)  A second witness (`HistWitness.hint_sound_chunk_full_flavour_witness_aux`) pushes a
+    float histogram through the integer appender fold, which the Go types exclude. -/
+theorem hint_sound_chunk_full_witness : ¬ hint_sound_chunk_full := by
+  intro hfull
+  obtain ⟨samples, c, hrun, hbad⟩ := Prom.HistWitness.hint_sound_chunk_full_witness_aux
+  rw [hfull samples c hrun] at hbad; cases hbad
+
+/-- `hint_sound_query_full` as written is false for the same ill-formed spans. -/
+theorem hint_sound_query_full_witness : ¬ hint_sound_query_full := by
+  intro hfull
+  obtain ⟨samples, cuts, s, hrun, hbad⟩ := Prom.HistWitness.hint_sound_query_full_witness_aux
+  rw [hfull samples cuts s hrun] at hbad; cases hbad
+
+/-- `hint_sound_merge_full` as written is false: a source that repeats a timestamp (no series iterator does) makes
+    the chain iterator skip the repeated sample inside the same input without clearing `consecutive`. -/
+theorem hint_sound_merge_full_witness : ¬ hint_sound_merge_full := by
+  intro hfull
+  obtain ⟨srcs, out, hs, hm, hbad⟩ := Prom.HistWitness.hint_sound_merge_full_witness_aux
+  rw [hfull srcs out hs hm] at hbad; cases hbad
 
 /-- The literal statement fails for queries that start inside a chunk (finding C12-F1): the first returned
     sample keeps NotCounterReset although nothing precedes it in the result. -/
